@@ -366,7 +366,17 @@ Definition kill_effects (F : list fault) (kill : list pod) (api : list pod) : li
            if p_del p || fails_delete F t i then acc1 else api_delete t i acc1)
     kill api.
 
-Definition kill_pods (w : world) (rt : retain) (tg : option target) (u : updfn) (F : list fault)
+(* the per-task table of the live pods of a list *)
+Definition tsc_of_pods (l : list pod) : list (positive * counts) :=
+  fold_right (fun p m => if p_del p then m else tsc_add (p_task p) (cone (p_phase p)) m) [] l.
+
+Definition in_kill (kill : list pod) (p : pod) : bool := existsb (same_id (p_task p) (p_idx p)) kill.
+
+(* [fixed = true]: the code after "fix: killPods counts retained and non-target
+   pods in the job status counters"; [fixed = false]: the code before it, which
+   reached classifyAndAddUpPodBaseOnPhase only for pods whose deletion failed,
+   i.e. never on the success path (defect F2). *)
+Definition kill_pods_gen (fixed : bool) (w : world) (rt : retain) (tg : option target) (u : updfn) (F : list fault)
   : world * bool * bool (* error, status written *) :=
   match tg with
   | Some TPartition => (w, false, false)    (* jobInfo.Partitions has no entry: "skip management process" *)
@@ -378,8 +388,12 @@ Definition kill_pods (w : world) (rt : retain) (tg : option target) (u : updfn) 
     let w2 := set_wpods w1 (kill_effects F kill (w_pods w)) in
     if any_fault F kill then (w2, true, false)
     else
-      let term := term0 + Z.of_nat (length kill) in
-      let s1 := mkStatus (st_phase vst) (st_retry vst) (st_version vst) (st_min vst) c0 term [] false (st_rundur vst) in
+      (* pods that are not being killed: terminating if they have a deletion timestamp, else by phase *)
+      let rest := filter (fun p => negb (in_kill kill p)) (v_pods w) in
+      let cnt := if fixed then fst (tally rest) else c0 in
+      let term := if fixed then Z.of_nat (length kill) + snd (tally rest) else term0 + Z.of_nat (length kill) in
+      let tsc := if fixed then tsc_of_pods rest else [] in
+      let s1 := mkStatus (st_phase vst) (st_retry vst) (st_version vst) (st_min vst) cnt term tsc false (st_rundur vst) in
       let s2 := apply_upd u (v_spec w) s1 in
       let s3 := mkStatus (st_phase s2) (st_retry s2) (st_version s2) (st_min s2) (st_cnt s2) (st_term s2)
                          (st_tsc s2) (st_tsc_nil s2) true in
@@ -391,6 +405,8 @@ Definition kill_pods (w : world) (rt : retain) (tg : option target) (u : updfn) 
         | Some _ => (w3, false, true)
         end
   end.
+Definition kill_pods := kill_pods_gen true.
+Definition kill_pods_prefix := kill_pods_gen false.
 
 (* ---------- syncJob ---------- *)
 Definition pg_admitted (g : option pgphase) : bool :=
@@ -431,10 +447,15 @@ Definition surplus (t : task) (view : list pod) : list pod := filter (fun p => n
 
 Record acc := mkAcc { a_pods : list pod; a_cnt : counts; a_term : Z; a_tsc : list (positive * counts); a_err : bool }.
 
-Definition count_kept (a : acc) (p : pod) : acc :=
+(* [fixed = true]: after "fix: syncJob counts an out-of-sync pod once" a live
+   out-of-sync pod is only handed to the deletion pass (and counted there as
+   terminating); before, it was also counted by its phase. *)
+Definition count_kept_gen (fixed : bool) (a : acc) (p : pod) : acc :=
   if p_del p then mkAcc (a_pods a) (a_cnt a) (a_term a + 1) (a_tsc a) (a_err a)
+  else if fixed && p_oos p then a
   else mkAcc (a_pods a) (cadd (a_cnt a) (cone (p_phase p))) (a_term a)
              (tsc_add (p_task p) (cone (p_phase p)) (a_tsc a)) (a_err a).
+Definition count_kept := count_kept_gen true.
 
 Definition create_one (F : list fault) (t : positive) (a : acc) (i : Z) : acc :=
   if fails_create F t i then mkAcc (a_pods a) (a_cnt a) (a_term a) (a_tsc a) true
@@ -449,9 +470,9 @@ Definition delete_one (F : list fault) (a : acc) (p : pod) : acc :=
 Definition to_delete (sp : spec) (view : list pod) : list pod :=
   flat_map (fun t => filter (fun p => negb (p_del p) && p_oos p) (kept t view) ++ surplus t view) (s_tasks sp).
 
-Definition sync_pods (sp : spec) (view api : list pod) (F : list fault) : acc :=
+Definition sync_pods_gen (fixed : bool) (sp : spec) (view api : list pod) (F : list fault) : acc :=
   (* pass 1: count the kept pods *)
-  let a1 := fold_left (fun a t => fold_left count_kept (kept t view) a) (s_tasks sp)
+  let a1 := fold_left (fun a t => fold_left (count_kept_gen fixed) (kept t view) a) (s_tasks sp)
                       (mkAcc api c0 0 [] false) in
   (* pass 2: creations *)
   let a2 := fold_left (fun a t => if deps_met sp view t then fold_left (create_one F (t_name t)) (missing t view) a else a)
@@ -459,6 +480,8 @@ Definition sync_pods (sp : spec) (view api : list pod) (F : list fault) : acc :=
   if a_err a2 then a2
   else (* pass 3: deletions *)
     fold_left (delete_one F) (to_delete sp view) a2.
+Definition sync_pods := sync_pods_gen true.
+Definition sync_pods_prefix := sync_pods_gen false.
 
 (* createOrUpdatePodGroup: create when the lister has none (AlreadyExists tolerated) *)
 Definition ensure_pg (w : world) : world :=
